@@ -597,7 +597,13 @@ theorem all_correct {G : GCtx} (ok : G.OK) : ∀ fuel, StmtSpec G fuel ∧ StmtL
         | syscall id args =>
           simp only [okS5, Bool.and_eq_true, decide_eq_true_eq, List.all_eq_true] at hok
           exact execS_syscall (KOf G pi sp dep hi) _ wf _ id args σ hok.1 hok.2
-        | assignSub n i e => simp [okS5] at hok
+        | assignSub n i e =>
+          simp only [okS5, Bool.and_eq_true] at hok
+          have : optStmt (annotS (fun _ => none) (.assignSub n i e))
+              = .assignSub n (optExpr (annotate (fun _ => none) i)) (optExpr (annotate (fun _ => none) e)) := by
+            simp [annotS, optStmt]
+          rw [this]
+          exact execS_assignSub (KOf G pi sp dep hi) _ wf _ n i e σ hok.1 hok.2
         | call g args =>
           simp only [okS5, Bool.and_eq_true, List.all_eq_true, List.contains_iff_mem] at hok
           exact execS_callStmt ok (F + 1) hcsF1 hpi sp dep hi hlo hspv hstack g args hok.1 hok.2 σ
